@@ -10,8 +10,14 @@ def handle (fn : String) (args : List Json) : String :=
   | "format" => match args with
     | [a0] => (do let x0 ← Wire.decStr a0; pure (Wire.respondWith Wire.encStr (Gen.in__aadhaar.format x0)) : Option String).getD "badargs"
     | _ => "badargs"
+  | "is_valid" => match args with
+    | [a0] => (do let x0 ← Wire.decStr a0; pure (Wire.respondWith Wire.encBool (Gen.in__aadhaar.is_valid x0)) : Option String).getD "badargs"
+    | _ => "badargs"
   | "mask" => match args with
     | [a0] => (do let x0 ← Wire.decStr a0; pure (Wire.respondWith Wire.encStr (Gen.in__aadhaar.mask x0)) : Option String).getD "badargs"
+    | _ => "badargs"
+  | "validate" => match args with
+    | [a0] => (do let x0 ← Wire.decStr a0; pure (Wire.respondWith Wire.encStr (Gen.in__aadhaar.validate x0)) : Option String).getD "badargs"
     | _ => "badargs"
   | _ => "nofunc"
 end Driver.D_in__aadhaar
